@@ -184,6 +184,30 @@ def run(rep, tier, rng):
             rep.violation({"what": "standard output is not exactly what the program displayed before the first failing form (long output)",
                            "program": text if len(text) < 4000 else text[:2000] + " ... " + text[-1500:], "expected_length": len(want),
                            "stdout_length": len(out), "first_difference_at": k, "exit": rc, "failing_form_present": failing})
+    # LONG PROGRAM FILES with characters outside ASCII at every byte offset around the multiples of 4096 and 8192: a file is its
+    # characters however its bytes fall (expected output known without running anything)
+    big = []
+    for boundary in (4096, 8192, 16384, 32768) if tier != "quick" else (8192, 16384):
+        for delta in range(-4, 3):
+            for ch in ("\u00e9", "\u4e2d", "\U0001f600"):
+                big.append((boundary + delta, ch))
+    if tier == "quick":
+        rng.shuffle(big); big = big[:24]
+    for i, (off, ch) in enumerate(big):
+        head = '(import (scheme base) (scheme write))\n(display "'
+        pad = "x" * (off - len(head.encode()))
+        text = head + pad + ch + 'tail")\n(display 7)\n'
+        assert len((head + pad).encode()) == off
+        path = os.path.join(work, "progs", "big%d.scm" % i)
+        open(path, "wb").write(text.encode())
+        rc, out, err = F.run_cli(binp, os.path.join(work, "cwd"), path)
+        rep.count()
+        rep.nontrivial(("big", off, ch))
+        want = pad + ch + "tail7"
+        if out != want or rc != 0:
+            rep.violation({"what": "a long program file with a character outside ASCII is not run as its text says",
+                           "file": "(import (scheme base) (scheme write)) (display \"x...x%stail\") (display 7) with the character starting at byte %d" % (ch, off),
+                           "character": ch, "byte_offset": off, "exit": rc, "stdout_length": len(out), "expected_length": len(want), "stderr": err[:300]})
     # special files
     for name, content in special:
         path = os.path.join(work, "progs", "special-" + name)
@@ -215,7 +239,7 @@ def main(tier, seed):
     rep.cov["rule"] = ("random programs that import the standard libraries, define, compute and display (strings with parentheses and "
                        "semicolons included), half of them with one injected run-time fault (8 kinds x 6 contexts) at a random position, a fifth "
                        "with a form rejected before evaluation (malformed special form, stray parenthesis, bad literal, unclosed form at end of file), "
-                       "joined by LF / CRLF / blank lines / blanks, with or without final newline; plus displays of literal strings of up to 9000 characters with line breaks anywhere (expected output known without running anything), a missing file, a directory, "
+                       "joined by LF / CRLF / blank lines / blanks, with or without final newline; plus displays of literal strings of up to 9000 characters with line breaks anywhere (expected output known without running anything), program files of 8-33 KiB with a character outside ASCII at every byte offset around the multiples of 4096 / 8192, a missing file, a directory, "
                        "a non-UTF-8 file, an empty file, CR LF inside a string literal; each run through the built binary from "
                        "another working directory, and (a sample) also by bare name from its own directory, as ./name and through ..; "
                        "distinct = distinct program texts")
